@@ -67,6 +67,9 @@ GROUP_BIND_EXEMPT = {
 }
 
 
+STATE_PRED = re.compile(r"is_protocol_paused\(\)|\.get_flag\(|\.is_stale\(\)|\.validate_\w+\(|\.has_admin_deposit\(|\.deposits\.iter\(\)")
+
+
 def nrm(s):
     return re.sub(r"\s+", "", s or "")
 
@@ -97,7 +100,10 @@ def binding_signature(st):
             elif c.kind == "close":
                 items.append("close:" + nrm(c.target))
             elif c.kind == "pred":
-                items.append("pred:" + nrm(c.expr))
+                # state predicates (pause, account / bank flags, venue account state) say nothing about who may act or which account
+                # may be substituted: they belong to C14.R3, C10.R3/R5, C11, C16.R7, C12.R5, C20.R3, not to the binding signature
+                if not STATE_PRED.search(nrm(c.expr)):
+                    items.append("pred:" + nrm(c.expr))
             elif c.kind == "signer":
                 items.append("signer")
             elif c.kind == "opaque":
